@@ -32,6 +32,7 @@ type PropSpec struct {
 	Replays    map[string]string // obligation regexp -> replay driver name
 	NoClaim    []string          // obligation regexps that are attempted but not claimed
 	Specs      []string          // spec files to load (base names); empty: all
+	Claim      []string          // if set: only obligations matching one of these regexps belong to this property
 }
 
 func readProp(path string) (*PropSpec, error) {
@@ -69,6 +70,8 @@ func readProp(path string) (*PropSpec, error) {
 			ps.Trusted = append(ps.Trusted, rest)
 		case "bounded":
 			ps.Bounded = append(ps.Bounded, rest)
+		case "claim":
+			ps.Claim = append(ps.Claim, rest)
 		case "specs":
 			ps.Specs = append(ps.Specs, strings.Fields(rest)...)
 		case "noclaim":
@@ -286,6 +289,22 @@ func cmdCheck(args []string) int {
 		}
 		obs = append(obs, ob)
 	}
+	if len(ps.Claim) > 0 {
+		var res []*regexp.Regexp
+		for _, c := range ps.Claim {
+			res = append(res, regexp.MustCompile(c))
+		}
+		var f []*Obligation
+		for _, o := range obs {
+			for _, re := range res {
+				if re.MatchString(o.Name) {
+					f = append(f, o)
+					break
+				}
+			}
+		}
+		obs = f
+	}
 	if *only != "" {
 		re := regexp.MustCompile(*only)
 		var f []*Obligation
@@ -430,7 +449,7 @@ func cmdCheck(args []string) int {
 		}
 		replayed := false
 		why := o.Status + ": " + o.Detail
-		if o.Status == "failed" {
+		if o.Status == "failed" || o.Status == "unknown" {
 			if ok, note := tryReplay(prog, ps, o, *repo, *verif); ok {
 				replayed = true
 				why += "; " + note
